@@ -309,7 +309,10 @@ class Result:
             path = os.path.join(REPLAYS, "%s-%d.json" % (self.pid, i))
             with open(path, "w") as f:
                 json.dump({"property": self.pid, "what": text, "replay": replay}, f, indent=1, default=str)
-            print("VIOLATION property=%s replay=%s" % (self.pid, path))
+            if self.pid.startswith("X"):      # extras: outside the listed properties, not registered in MANIFEST.json
+                print("FINDING extra=%s (outside the listed properties) replay=%s" % (self.pid, path))
+            else:
+                print("VIOLATION property=%s replay=%s" % (self.pid, path))
             print("  " + text[:600])
         for n in self.notes[:30]:
             print("NOTE " + n)
@@ -320,7 +323,9 @@ class Result:
             ev["coverage"]["notes"] = self.notes[:30]
         if self.known:
             ev["coverage"]["known_findings"] = self.known
-        with open(os.path.join(EVIDENCE, self.pid + ".json"), "w") as f:
+        evdir = EVIDENCE if not self.pid.startswith("X") else os.path.join(VERIF, "docs", "extras")
+        os.makedirs(evdir, exist_ok=True)
+        with open(os.path.join(evdir, self.pid + ".json"), "w") as f:
             json.dump(ev, f, indent=1, default=str)
         return 1 if self.violations else 0
 
